@@ -829,7 +829,9 @@ ASSUMPTIONS = [
     'mixing NumpyTensor with DiscretizedSpaceElement operands, the where= keyword and F-order are not modelled',
 ]
 TRUSTED = ['harness/c17.py observation of ODL objects (type, space, np.shares_memory, identity with out)',
-           'C17/Arr.v exact semantics of the modelled ufunc methods (validated against NumPy by the raw half of each case)']
+           'C17/Arr.v exact semantics of the modelled ufunc methods (validated against NumPy by the raw half of each '
+           'case); that its Q instance is the restriction of its R instance is PROVED (C17/Transfer.v) for every '
+           'division-free ufunc, assumed only for true_divide / reciprocal']
 
 
 # ---- memory layouts
